@@ -114,6 +114,21 @@ func optTokens(r *Rng, oi optInfo, level int) []PTok {
 }
 
 // genPlan builds a valid command line for d.
+// restBounds: how many words a rest-positional with this required tag takes.
+func restBounds(req string) (lo, hi int) {
+	switch req {
+	case "1":
+		return 1, 1 << 20
+	case "1-2":
+		return 1, 2
+	case "2":
+		return 2, 1 << 20
+	case "2-3":
+		return 2, 3
+	}
+	return 0, 1 << 20
+}
+
 func hasDDash(p *Plan) bool {
 	for _, t := range p.Toks {
 		if t.Role == "ddash" {
@@ -249,12 +264,9 @@ func genPlan(r *Rng, d *DeclSpec) *Plan {
 	for _, a := range pos {
 		if a.Kind == "[]string" {
 			hasRestArg = true
-			lo, hi := 0, 2
-			switch a.Required {
-			case "1":
-				lo, hi = 1, 3
-			case "1-2":
-				lo, hi = 1, 2
+			lo, hi := restBounds(a.Required)
+			if hi > lo+2 {
+				hi = lo + 2
 			}
 			for i := r.Range(lo, hi); i > 0; i-- {
 				words = append(words, PTok{Text: word(), Role: "pos"})
@@ -459,8 +471,8 @@ func planConsistent(d *DeclSpec, p *Plan) bool {
 		need, n := 0, 0
 		for _, a := range own.Pos {
 			if a.Kind == "[]string" {
-				if a.Required != "" {
-					need = n + 1
+				if lo, _ := restBounds(a.Required); lo > 0 {
+					need = n + lo
 				}
 				continue
 			}
